@@ -8,6 +8,7 @@ The BareScript data manipulation library
 import datetime
 import functools
 import importlib
+import math
 import statistics
 
 from schema_markdown import parse_schema_markdown, validate_type
@@ -384,7 +385,7 @@ def aggregate_data(data, aggregation):
             elif func == 'min':
                 aggregate_row[field] = min(measure_values)
             elif func == 'sum':
-                aggregate_row[field] = sum(measure_values)
+                aggregate_row[field] = math.fsum(measure_values)
             elif func == 'stddev':
                 aggregate_row[field] = statistics.pstdev(measure_values)
             else: # func == 'average'
